@@ -208,7 +208,9 @@ pub fn run(rng: &mut Rng, n: usize, rep: &mut Report) {
             }
         }
         // price shock on the collateral: sometimes enough to make the victim unhealthy, sometimes not
-        let f = *rng.pick(&[1.0f64, 0.9, 0.75, 0.7, 0.6, 0.5, 0.4, 0.3, 0.2, 0.01]);
+        // (one world in twelve: the collateral's price collapses to exactly ZERO — a legal fixed price; such collateral can be
+        // neither seized in a liquidation nor taken in a deleverage: C09)
+        let f = if rng.chance(1, 12) { rep.bump("zero_price_world"); 0.0f64 } else { *rng.pick(&[1.0f64, 0.9, 0.75, 0.7, 0.6, 0.5, 0.4, 0.3, 0.2, 0.01]) };
         {
             let key = s.banks[0].bank;
             let mut bk = s.w.bank(&key);
@@ -249,15 +251,40 @@ pub fn run(rng: &mut Rng, n: usize, rep: &mut Report) {
                 rep.bump("daily_limit_world");
             }
         }
-        for _ in 0..12 {
+        for it in 0..14 {
+            if it >= 12 && (daily_limit.is_none() || f < 0.05) { break; }
+            // the admin may re-issue the daily-limit configuration at any time (same value, or another non-zero one): what
+            // was already withdrawn today still counts against whatever limit is in force
+            if let Some(lim) = daily_limit {
+                if rng.chance(1, 5) || it == 13 {
+                    let new_lim = if rng.chance(2, 3) || it == 13 { lim } else { ((lim as u64 * (50 + rng.below(150)) / 100).clamp(1, u32::MAX as u64 / 2)) as u32 };
+                    if s.w.exec(&ix::configure_deleverage_withdrawal_limit(s.group, s.admin, new_lim)).is_ok() {
+                        daily_limit = Some(new_lim);
+                        rep.bump("daily_limit_reconfigured");
+                    }
+                }
+            }
             // ------------------------------------------------------------ generate a transaction
             let u = if rng.chance(5, 6) { 0 } else { 1 };
             let seize = match rng.below(6) { 0 => 1, 1 => dep / 1000, 2 => dep / 100, 3 => dep / 10, 4 => dep / 2, _ => rng.below(dep) + 1 };
             let seize_val = (seize as f64) * 10f64.powi(d1 - d0) * f; // in liability-token units (both base prices are 10)
             let repay = ((seize_val * *rng.pick(&[0.0f64, 0.5, 0.8, 0.9, 0.953, 0.96, 1.0, 1.0, 1.1, 1.3])) as u64).max(1);
             let mut tx: Vec<K> = vec![];
-            let kind = rng.below(12);
-            if kind == 11 {
+            let kind = if it >= 12 { 99 } else { rng.below(12) };
+            if kind == 99 {
+                // directed pair at the end of a daily-limit world: two forced deleverages of ~60 % of the daily limit each, with
+                // the limit re-issued (unchanged) in between: the second must be refused, whatever was metered before
+                let lim = daily_limit.unwrap() as f64;
+                let dollars = lim * 0.6 + 2.0;
+                let toks = (dollars * 10f64.powi(d0) / (10.0 * f)) as u64;
+                let toks = toks.clamp(1, dep);
+                let rp = ((toks as f64) * 10f64.powi(d1 - d0) * f * 1.02) as u64 + 1;
+                tx.push(K::StartDelev(0));
+                tx.push(K::Repay(0, rp));
+                tx.push(K::Withdraw(0, toks));
+                tx.push(K::EndDelev(0));
+                rep.bump("daily_limit_directed_tx");
+            } else if kind == 11 {
                 // a forced deleverage that closes the position out: repay everything, take everything (or a part)
                 if rng.chance(1, 3) { tx.push(K::Cb) }
                 tx.push(K::StartDelev(u));
@@ -357,6 +384,14 @@ pub fn run(rng: &mut Rng, n: usize, rep: &mut Report) {
                             delev_sum_lower, lim, out, d, tx
                         ));
                     }
+                }
+            }
+            if r.is_ok() && f == 0.0 && tx.iter().any(|k| matches!(k, K::StartLiq(_) | K::StartDelev(_))) {
+                let out = vault_cb0.saturating_sub(s.w.token_amount(&s.banks[0].liquidity_vault));
+                if out > 0 {
+                    rep.fail(format!("C09 collateral priced at exactly zero was seized inside a receivership: {} tokens left the collateral vault in the committed transaction {:?}", out, tx));
+                } else {
+                    rep.bump("zero_price_bracket_without_seizure");
                 }
             }
             rep.bump("cases");
